@@ -11,6 +11,9 @@
 (*   oracle (FALSE: grid beyond the brute-force bound, geo empty),         *)
 (*   dchk <<[i, j, distId, angleId]>> stored distance vs folded angle of   *)
 (*        the two quaternions, positive (all stored borders/distances > 0)]*)
+(*   optional fullAdj, sweptAdj, halfAdj <<[i,j]>> (+ ...Shape): the        *)
+(*        adjacency getter with its options = the fold's intermediate      *)
+(*        states (full-sphere matrix, row sweep, cut without sweep)        *)
 (* The declarative fold is the one of Fold.tla: rotations i # j are        *)
 (* adjacent iff R(i,j) or R(i, j+N); the border is the face area when      *)
 (* exactly one of the two holds.                                           *)
@@ -40,6 +43,18 @@ Clause(r) ==
       bPat == {<<p[1], p[2]>> : p \in ToSet(r.borders)}
       dPat == {<<p[1], p[2]>> : p \in ToSet(r.dists)}
       touching(p) == {q \in {p, <<p[1], anti(p[2])>>} : q \in R}
+      (* the fold's intermediate states as the getter's options expose them (Fold.tla: M, the row sweep, the cut) *)
+      P2 == 0 .. (2 * N - 1)
+      Pairs(s) == {<<p[1], p[2]>> : p \in ToSet(s)}
+      unsure2 == {p \in P2 \X P2 : p \in Rt \/ <<p[1], anti(p[2])>> \in Rt}
+      Swept == {p \in P2 \X P2 : p \in R \/ <<p[1], anti(p[2])>> \in R}
+      OptClause ==
+        IF "fullAdj" \notin DOMAIN r THEN "ok"
+        ELSE IF r.fullAdjShape # <<2 * N, 2 * N>> \/ r.sweptAdjShape # <<2 * N, 2 * N>> \/ r.halfAdjShape # <<N, N>> THEN "an option form of the adjacency has the wrong shape"
+        ELSE IF (Pairs(r.fullAdj) \ Rt) # (R \ Rt) THEN "the double-cover matrix (only_upper=False, include_opposing_neighbours=False) is not 'the two cells share a 2-dimensional face'"
+        ELSE IF (Pairs(r.halfAdj) \ Rt) # ({p \in P1 \X P1 : p \in R} \ Rt) THEN "the half matrix without opposing neighbours is not the face relation among the upper points"
+        ELSE IF (Pairs(r.sweptAdj) \ unsure2) # (Swept \ unsure2) THEN "the swept double-cover matrix is not 'touches q_j or -q_j' row by row"
+        ELSE "ok"
   IN IF r.err # "" THEN "exception:" \o r.err
      ELSE IF ~r.antiOK THEN "double cover is not [G; -G]"
      ELSE IF ~closed THEN "ORACLE relation is not closed under the antipode map"
@@ -55,7 +70,7 @@ Clause(r) ==
      ELSE IF \E b \in ToSet(r.borders) : <<b[1], b[2]>> \notin unsure /\ Cardinality(touching(<<b[1], b[2]>>)) = 1
                                           /\ b[3] # info(CHOOSE q \in touching(<<b[1], b[2]>>) : TRUE)[4]
           THEN "border is not the area of the shared face"
-     ELSE "ok"
+     ELSE OptClause
 
 Init == l = 1 /\ TLCSet(1, 0)
 Step == /\ l <= Len(Log)
